@@ -384,7 +384,7 @@ func (p *parser) checkAlias(mAlias ast.Alias, typeSensitive bool, start int, cac
 				token.NewRange(&p.tokens[start],
 					p.previous()),
 				fmt.Sprintf("Der generische Typ %s konnte nicht mit den Typparametern %s instanziiert werden", structDecl.Type.String(), typeParams),
-				p.module.GetIncludeFilename(),
+				p.module.FileName,
 			))
 		}
 		return args, nil, instantiation, reported_errors
